@@ -225,7 +225,7 @@ func (m *Machine) RunPath(h *ssa.Function, prefix []int64, wantModel bool) (res 
 				res.Msg = r.msg
 			case targetPanic:
 				res.End = "panic"
-				res.Msg = m.panicString(r)
+				res.Msg = m.panicString(r) + " @ " + m.lastPanicAt
 			default:
 				res.End = "engine-error"
 				res.Msg = fmt.Sprint(r) + " @ " + m.where() + "\n" + shortStack()
